@@ -231,6 +231,7 @@ func init() {
 	for _, id := range []string{"C01", "C04", "C08", "C17"} {
 		props[id].Harnesses = append(props[id].Harnesses, HarnessSpec{Name: "VH_C01_results_isolated", Replay: "native", Unwind: 400})
 	}
+	props["C02"].Harnesses = append(props["C02"].Harnesses, HarnessSpec{Name: "VH_C17_pooled_memory", Replay: "race", Unwind: 400})
 	trust := HarnessSpec{Name: "VH_C02_trust_store", Replay: "native", Unwind: 400}
 	for _, id := range []string{"C01", "C02", "C04", "C10"} {
 		props[id].Harnesses = append(props[id].Harnesses, trust)
